@@ -147,7 +147,7 @@ def convex_classes(chk, rng, n):
             continue
         # ... the smallest polygons included: the triangle and the quadrilateral on the first vertices, every permutation of them
         perms = [(P, pm) for pm in (list(itertools.permutations(range(len(P)))) if len(P) <= 5 else [rng.permutation(len(P)) for _ in range(60)])]
-        perms += [(P[:3], pm) for pm in itertools.permutations(range(3))] + [(P[:4], pm) for pm in itertools.permutations(range(4))][::2]
+        perms += [(P[:3], pm) for pm in itertools.permutations(range(3))] + ([(P[:4], pm) for pm in itertools.permutations(range(4))][::2] if len(P) >= 4 else [])
         for Pk, perm in perms:
             V = np.c_[Pk[list(perm)], np.zeros(len(Pk))]
             if np.cross(V[2] - V[1], V[0] - V[1])[2] == 0:
